@@ -13,7 +13,7 @@ except Exception as e: m={"property":pid,"summary":"(meta.json of the sub-agent 
 out={"breaks_property":pid,"variant":v,"author":"independent sub-agent given only the property text and a scratch worktree",
      "summary":m.get("summary"),"needs_to_manifest":m.get("needs_to_manifest"),
      "sub_agent_ran":m.get("ran"),
-     "confirmed_by_harness_author":{"command":f"tools/confirm_seed.sh {pid} {v} (scratch worktree /tmp/mut/{pid}: repo tests with the change, demo with and without the change)","result":conf},
+     "confirmed_by_harness_author":{"command":f"tools/confirm_seed.sh {pid}-{v} (scratch worktree of /repo under /tmp: repo tests with the change, demo with and without the change)","result":conf},
      "checks_run":"see selftest/last_run.log and DESIGN.md section 10"}
 json.dump(out,open(f"/verif/seeded/{pid}-{v}/meta.json","w"),indent=1)
 PY
